@@ -47,7 +47,7 @@ def in_scope(prop, failure):
     return False
 
 
-def write_evidence(prop, tier, seed, results, kani_results, violations, known_hits, wall, extra_notes):
+def write_evidence(prop, tier, seed, results, kani_results, violations, known_hits, wall, extra_notes, bounded=()):
     spec = PROPS[prop]
     obligations = sum(r.obligations() for r in results)
     discharged = sum(r.discharged() for r in results)
@@ -93,7 +93,9 @@ def write_evidence(prop, tier, seed, results, kani_results, violations, known_hi
         "units": [{"unit": r.unit, "status": r.status, "verified": r.verified, "errors": r.errors, "smt_ms": r.smt_ms,
                    "wall_s": round(r.wall_s, 2), "canary": r.canary, "problems": r.problems[:5]} for r in results],
         "kani": kani_results,
-        "bounded_stand_ins": [k for k in kani_results if k.get("bounded")],
+        "bounded_stand_ins": [k for k in kani_results if k.get("bounded")] + [
+            {"searcher": b["searcher"], "label": "bounded (not a proof)", "bound": b["bound"], "cases_run_on_real_crate": b["cases"],
+             "wall_s": b["wall_s"], "failing_input_found": bool(b.get("witness"))} for b in bounded],
         "not_covered": spec.get("not_covered", []),
         "known_findings_hit": known_hits,
         "failed_obligations": [v["obligation"] for v in violations],
@@ -143,6 +145,22 @@ def run_property(prop, tier, seed):
                                "witness": k.get("witness")})
         elif k["status"] != "pass":
             undecided.append("kani %s: %s" % (k["harness"], k.get("summary", "")))
+    # bounded stand-ins: searchers that exercise the real crate (functions not under contract, and a fallback when
+    # extraction/verification of a unit is undecided); labelled bounded, never counted as proved
+    bounded = []
+    names = list(spec.get("searchers", []))
+    if names and os.environ.get("VERIF_NO_BOUNDED") != "1":
+        budget = int(os.environ.get("VERIF_BOUNDED_BUDGET", "2000" if tier == "thorough" else "400"))
+        bounded, berr = rp.run_bounded(names, seed, budget)
+        if berr:
+            undecided.append("bounded stand-ins not run: " + berr[-600:])
+        for b in bounded:
+            if b.get("witness"):
+                violations.append({"obligation": "bounded/%s: real code disagrees with the executable specification" % b["searcher"],
+                                   "kind": "bounded-replay", "function": b["searcher"], "message": "bounded search found a failing input",
+                                   "rendered": "", "unit": "bounded", "witness": b["witness"]})
+            if b.get("error"):
+                notes.append("searcher %s raised %s (ignored)" % (b["searcher"], b["error"]))
     known = [k for k in load_known() if k.get("property") == prop and k.get("status") == "known"]
     known_hits = []
     rc = 0
@@ -152,7 +170,7 @@ def run_property(prop, tier, seed):
         # witness search on the real code
         w = v.get("witness")
         note = ""
-        if w is None and v.get("kind") != "kani":
+        if w is None and v.get("kind") not in ("kani", "bounded-replay"):
             w, note = rp.find_witness(v["obligation"], seed)
         v["witness"] = w
         v["witness_note"] = note
@@ -180,12 +198,13 @@ def run_property(prop, tier, seed):
             print("VIOLATION property=%s replay=%s no-failing-input-found" % (prop, path))
         reported.append(v)
         rc = 1
+    # a structural problem in a unit is 'undecided' (exit 2) unless a bounded stand-in found a real failing input (exit 1)
     if undecided and rc == 0:
         for u in undecided:
             print("UNDECIDED: " + u)
         rc = 2
     wall = time.time() - t0
-    write_evidence(prop, tier, seed, results, kani_results, reported, known_hits, wall, notes + undecided)
+    write_evidence(prop, tier, seed, results, kani_results, reported, known_hits, wall, notes + undecided, bounded)
     tot = sum(r.obligations() for r in results); dis = sum(r.discharged() for r in results)
     print("%s %s: units=%s verus function-VCs %d/%d discharged, smt %d ms, kani harnesses %d, wall %.1fs -> %s" % (
         prop, tier, ",".join(units), dis, tot, sum(r.smt_ms for r in results), len(kani_results), wall,
